@@ -11,34 +11,41 @@ OWN = {
     "C05": {"warm_context_gives_the_same_list", "warm_context_gives_the_same_preselection", "memo_entry_holds_direct_candidates_only",
             "memo_entries_survive_the_event", "memo_entry_is_keyed_by_the_word",
             "shown_list_and_preselection_are_the_assemblys_answer",
+            # "... the data files ...": a re-load of the user's auto-correct list leaves nothing of the old list behind in a warm context
+            "reloaded_context_equals_a_new_one", "reloaded_list_is_in_use",
             "context_with_history_gives_the_list_of_a_new_one", "context_with_history_gives_the_preselection_of_a_new_one"},
     "C06": None,   # fixed_session clauses are all C06's; the phonetic glue set is given explicitly in the module
-    "C07": {"autocorrect_entry_is_first", "ranked_best_first", "dictionary_candidates_carry_their_distance", "english_candidate_only_when_enabled_and_not_ansi",
+    "C07": {"autocorrect_entry_is_first", "ranked_best_first", "dictionary_candidates_carry_their_distance",
+            # distances are "from the plain transliteration" of THIS word: the memo entry a word's candidates come from is its own
+            "memo_entry_is_keyed_by_the_word", "memo_entry_holds_direct_candidates_only", "english_candidate_only_when_enabled_and_not_ansi",
             "english_candidate_is_last_and_is_the_typed_text", "no_candidate_twice"},
-    "C08": {"suffix_forms_complete", "memo_entry_holds_direct_candidates_only", "memo_entry_is_keyed_by_the_word"},
+    "C08": {"suffix_forms_complete", "candidates_of_the_base_come_back_joined", "memo_entry_holds_direct_candidates_only", "memo_entry_is_keyed_by_the_word"},
     "C09": {"learned_choice_is_preselected_next_time", "committing_the_preselected_candidate_changes_nothing", "other_learned_entries_survive_a_commit",
-            "recorded_preselection_is_the_assemblys_answer"},
+            "recorded_preselection_is_the_assemblys_answer", "commit_without_a_list_changes_nothing"},
     "C10": {"no_panic", "unreadable_store_is_treated_as_absent", "failed_save_loses_at_most_that_choice", "commit_ends_the_word",
-            "reload_keeps_the_word_in_progress", "save_replaces_the_whole_file"},
+            "reload_keeps_the_word_in_progress", "save_replaces_the_whole_file", "nothing_owned_is_forgotten"},
     "C11": {"reloaded_context_equals_a_new_one", "reloaded_list_is_in_use", "configuration_is_replaced", "same_layout_keeps_the_method_and_its_word",
             "changed_layout_replaces_the_method", "later_events_see_the_new_configuration", "method_matches_the_configured_layout",
             "method_is_new_or_refreshed_by_the_update", "event_result_is_the_methods_result", "events_use_the_contexts_data", "current_method_is_last",
             "constructor_consults_the_user_files_whatever_the_options", "data_is_the_same_for_every_layout_and_option",
-            "reconfigured_context_gives_the_list_of_a_new_one", "reconfigured_context_gives_the_preselection_of_a_new_one"},
+            "reconfigured_context_gives_the_list_of_a_new_one", "reconfigured_context_gives_the_preselection_of_a_new_one",
+            "key_obeys_the_options_in_force_now"},
     "C15": {"first_candidate_is_the_composed_text", "at_most_nine", "english_candidate_iff_enabled_and_not_ansi_and_different", "english_candidate_is_the_raw_keys",
             "non_emoji_candidates_by_distance", "no_candidate_twice", "dictionary_candidates_are_search_answers_wrapped", "pattern_is_anchored",
             "pattern_has_the_letter_class", "literal_part_has_no_regex_meta_character", "literal_part_is_the_word_without_punctuation", "wildcard_width_by_length",
             "every_match_is_offered", "shown_text_is_the_dictionary_word_with_blocked_ligatures", "distance_is_computed_from_the_shown_text",
             # "the last candidate is the raw key text" of *this* word: the raw keys are empty whenever nothing is composed
-            "session_invariant_preserved"},
-    "C16": {"ansi_offers_no_emoji_or_raw_text", "english_candidate_only_when_enabled_and_not_ansi", "english_candidate_iff_enabled_and_not_ansi_and_different",
+            "session_invariant_preserved",
+            # "the first candidate is always the composed text": the list an event returns was made for the text as it now stands
+            "scratch_list_belongs_to_the_text", "auxiliary_is_the_composed_text", "list_not_empty"},
+    "C16": {"ansi_offers_no_emoji_or_raw_text", "ansi_offers_nothing_it_cannot_encode", "english_candidate_only_when_enabled_and_not_ansi", "english_candidate_iff_enabled_and_not_ansi_and_different",
             "suggestion_carries_the_ansi_switch"},      # the ANSI clause is also evaluated on the list shown after an option change (reconfiguration)
     "C17": {"punctuation_only_left_untouched", "word_untouched", "leading_quotes_open", "trailing_quotes_close", "smart_quotes_keep_length_and_order",
             "smart_quotes_keep_preselection", "smart_quotes_curl_every_candidate"},
     "C18": {"emoticon_offers_its_emoji_and_keeps_the_literal_text", "emoji_name_offers_all_its_emoji_in_table_order_wrapped", "emoticon_offers_its_emoji",
             "bengali_emoji_name_offers_all_its_emoji_in_table_order_wrapped",
             # "outside ANSI mode": also when ANSI mode was left a moment ago - the list is the one a new context shows
-            "reconfigured_context_gives_the_list_of_a_new_one",
+            "reconfigured_context_gives_the_list_of_a_new_one", "data_is_the_same_for_every_layout_and_option",
             # the fixed method looks the emoticon up under the raw keys: they must be the keys of this word only
             "session_invariant_preserved"},
 }
